@@ -111,6 +111,11 @@ def run_case(c, d):
         except Exception as e:   # noqa
             found = 'EXC %s' % type(e).__name__
         out['walk']['%d:%s' % (ri, rel)] = found
+        try:
+            foundp = sorted(os.path.relpath(p, pkg) for p in us.package_modpaths(pkg, with_pkg=True))
+        except Exception as e:   # noqa
+            foundp = 'EXC %s' % type(e).__name__
+        out.setdefault('walk_pkg', {})['%d:%s' % (ri, rel)] = foundp
     return out
 
 
